@@ -1098,9 +1098,7 @@ def toDatetime (P : Prims) (E : Env) (f : Flags) (c : Nat) (dateFirst : Bool) (v
           | .escape e => .escape e
           | .diverge => .diverge
           | .unmodelled w => .unmodelled w
-    | .seq _ _ _ => .escape .attribute          -- `"GMT" in data` is False, then `data.endswith` / `data.replace`
-    | .dict _ _ => .escape .attribute
-    | _ => .perr .typeError                     -- `"GMT" in data`: argument is not iterable
+    | _ => .perr .typeError                     -- `if not isinstance(data, str): raise TypeError('invalid datetime')` (7b3aeda)
 
 def midnight (t : TimeV) : Bool := t.hh == 0 && t.mi == 0 && t.ss == 0 && t.us == 0
 
